@@ -8,6 +8,11 @@ use std::sync::Arc;
 
 pub const REPO: &str = "/repo";
 
+/// root of the repository whose std/ and tests/ files are read (override: env VERIF_REPO)
+pub fn repo_root() -> String {
+  std::env::var("VERIF_REPO").unwrap_or_else(|_| REPO.to_string())
+}
+
 /// A set of modules as plain data: (dotted module name, text)
 #[derive(Clone, Debug, Default)]
 pub struct Project {
@@ -38,7 +43,7 @@ impl Project {
 
 pub fn read_dir_modules(dir: &str) -> Vec<(String, String)> {
   let mut out = Vec::new();
-  let p = format!("{REPO}/{dir}");
+  let p = format!("{}/{dir}", repo_root());
   let mut names: Vec<_> = std::fs::read_dir(&p)
     .map(|rd| rd.flatten().map(|e| e.file_name().to_string_lossy().to_string()).collect())
     .unwrap_or_default();
